@@ -260,8 +260,16 @@ pub fn try_cleanup_corrupt_lock_file(data_dir: impl AsRef<Path>) -> Result<bool,
         return Ok(false);
     }
 
-    if authority_meta_path(&data_dir).exists() {
-        return Ok(false);
+    let meta_path = authority_meta_path(&data_dir);
+    if meta_path.exists() {
+        // An endpoint file means an authority got as far as serving. Only when that authority is
+        // provably gone is its meta a leftover that must not block recovery for ever.
+        match read_authority_meta(&data_dir) {
+            Ok(Some(meta)) if matches!(pid_liveness(meta.pid), PidLiveness::Dead) => {
+                let _ = fs::remove_file(&meta_path);
+            }
+            _ => return Ok(false),
+        }
     }
     #[cfg(feature = "verif")]
     rip_kernel::verif::point("auth.corrupt.checked", "");
